@@ -178,14 +178,57 @@ def r_dstr(P, chk):
             ok = False
             how = ""
             stored = resolve_key(f, s["c"][1]) if s["k"] == "BinaryOperator" else None
+            from .rules_misc import _linear as _lin
+            from .prog import single_assignment_locals as _sal
+
+            def elem_index(l):
+                """linear form of the index of `l` (= base[idx]) relative to b->str, through `char * p = b->str + off` aliases"""
+                base, idx = strip(l["c"][0]), l["c"][1]
+                off = {}
+                for _ in range(3):
+                    if base is None:
+                        return None
+                    if key(base) == b + "->str":
+                        break
+                    if base["k"] == "DeclRefExpr" and base["n"] in _sal(f):
+                        base = strip(_sal(f)[base["n"]])
+                        continue
+                    if base["k"] == "BinaryOperator" and base["op"] == "+":
+                        o = _lin(f, base["c"][1])
+                        if o is None:
+                            return None
+                        for k2, v2 in o.items():
+                            off[k2] = off.get(k2, 0) + v2
+                        base = strip(base["c"][0])
+                        continue
+                    return None
+                if base is None or key(base) != b + "->str":
+                    return None
+                i2 = _lin(f, idx)
+                if i2 is None:
+                    return None
+                for k2, v2 in i2.items():
+                    off[k2] = off.get(k2, 0) + v2
+                return {k2: v2 for k2, v2 in off.items() if v2}
+            stored_lin = None
+            if s["k"] == "BinaryOperator":
+                sl = _lin(f, s["c"][1])
+                stored_lin = {k2: v2 for k2, v2 in sl.items() if v2} if sl is not None else None
             for x in f.walk():
                 if x["k"] == "BinaryOperator" and x["op"] == "=" and const_value(x["c"][1]) == 0:
                     l = strip(x["c"][0])
+                    if l is not None and l["k"] == "ArraySubscriptExpr" and stored_lin is not None and not ok:
+                        el = elem_index(l)
+                        if el is not None and el == stored_lin and (f.cfg.postdominates(x["i"], s["i"]) or f.cfg.dominates(x["i"], s["i"])):
+                            ok, how = True, "terminator stored at the new end (linear index %s)" % el
                     if l is not None and l["k"] == "ArraySubscriptExpr" and resolve_key(f, l["c"][0]) == b + "->str":
                         ik = resolve_key(f, l["c"][1])
                         same = ik == lk or (stored is not None and ik == stored)
                         if same and f.cfg.postdominates(x["i"], s["i"]):
                             ok, how = True, "str[%s] = 0" % ik
+                        elif stored is not None and ik == stored and f.cfg.dominates(x["i"], s["i"]):
+                            # terminator written at the new end just before the length is updated to it
+                            ok, how = True, "str[%s] = 0 (before the length store)" % ik
             if not ok:
                 for c in f.calls("strncat"):
                     if resolve_key(f, c["c"][1]) in ("(%s->str+%s)" % (b, lk),) and f.cfg.dominates(c["i"], s["i"]):
